@@ -33,7 +33,7 @@ Step ==
      \/ \E v \in Slots, k \in {0, 2} : IsArr(v) /\ k >= Len(vs[v][2]) /\ Do([op |-> "setlength", v |-> v, n |-> k], SetLength(v, k))
      \/ \E v, w \in Slots : v # w /\ Do([op |-> "copy", w |-> w, v |-> v, how |-> CopyHow(w, v, n)], CopyTo(w, v))
      \/ \E v \in Slots : Do([op |-> "clear", v |-> v], ClearV(v))
-     \/ \E v \in Slots, i \in 0 .. 2 : IsArr(v) /\ i < Len(vs[v][2]) /\ vs[v][2][i + 1] \in pads /\ Do([op |-> "mutelem", v |-> v, i |-> i], MutElem(v, i))
+     \/ \E v \in Slots, i \in 0 .. 2 : IsArr(v) /\ i < Len(vs[v][2]) /\ vs[v][2][i + 1] \in pads /\ (\A w \in Slots \ {v} : IF IsArr(w) THEN \A k \in 1 .. Len(vs[w][2]) : vs[w][2][k] # vs[v][2][i + 1] ELSE TRUE) /\ Do([op |-> "mutelem", v |-> v, i |-> i], MutElem(v, i))
      \/ \E s \in {<<>>, <<"e1">>, <<"e1", "e2">>} : Do([op |-> "listset", list |-> "L1", elems |-> s], ListSet("L1", s))
      \/ \E i \in 0 .. 1, e \in Elems : i < Len(ls["L1"]) /\ Do([op |-> "listput", list |-> "L1", i |-> i, e |-> e], ListPut("L1", i, e))
      \/ \E e \in Elems : Len(ls["L1"]) < 3 /\ Do([op |-> "listappend", list |-> "L1", e |-> e], ListAppend("L1", e))
